@@ -27,12 +27,15 @@ def capacity_rules(run, F, E):
         rec = F.rec_by_name.get(fn.cls) or {}
         cap = rec.get('consts', {}).get('CAPACITY')
         c = cfgmod.cfg_of(fn)
-        br = [b for b in c.events(('branch',)) if b.e is not None and ir.pp(ir.normalize(b.e)) == '(_count < %s)' % cap]
+        def has_room(t_):
+            t_ = ir.strip(t_)
+            return t_['k'] == 'bin' and t_['op'] == '<' and ir.pp(ir.strip(t_['l'])) == '_count' and ir.const_val(t_['r']) == cap
+        brd = ir.find_decisions(c, has_room)
+        br = [d[0] for d in brd]
         ok = len(br) == 1
         det = None
         if ok:
-            t = [s for s, l in br[0].succ if l == 'T'][0]
-            f = [s for s, l in br[0].succ if l == 'F'][0]
+            t, f = brd[0][1], brd[0][2]
             muts = c.events(('write', 'new'))
             outside = [n for n in muts if not c.dominates(t, n)]
             rets = c.events(('ret',))
@@ -50,7 +53,7 @@ def capacity_rules(run, F, E):
         incs = [n for n in c.events(('write',)) if n.e.get('k') == 'un' and n.e.get('op') == '++' and ir.pp(ir.strip(n.e['e'])) == '_count']
         okc = len(incs) == 1 and ok and not c.in_loop(incs[0])
         if okc:
-            t = [s for s, l in br[0].succ if l == 'T'][0]
+            t = brd[0][1]
             # on the success side the increment is unconditional
             deps = [b for b in c.control_deps_closure(incs[0]) if b is not br[0]]
             okc = not deps and c.dominates(t, incs[0])
@@ -92,14 +95,14 @@ def capacity_rules(run, F, E):
             rets = [ir.const_val(n.e.get('e')) for n in c.events(('ret',)) if c.dominates(f, n)]
             ok = ok and rets == [0]
             link = c.events(('call',), lambda n: n.e.get('m') == 'linkTask')
-            ok = ok and len(link) == 1 and ir.strip(link[0].e['args'][0]).get('m') == 'emplace'
+            ok = ok and len(link) == 1 and ir.strip(ir.expand(link[0].e['args'][0], E.decls(fn))).get('m') == 'emplace'
         run.ob('C10.a', 'PlanT::append (capacity %s) links a new task only under the capacity test and otherwise returns false untouched' % cap, ok,
                where=fn.pat, key='PlanT::append does not respect the capacity')
     for fn in F.find('PayloadPlanT', 'append'):
         c = cfgmod.cfg_of(fn)
         ws = [ir.pp(ir.strip(n.e['l'])) for n in c.events(('write',)) if n.e.get('k') == 'asg']
         link = c.events(('call',), lambda n: n.e.get('m') == 'linkTask')
-        ok = ws == ['_planData.planExists'] and len(link) == 1 and ir.strip(link[0].e['args'][0]).get('m') == 'emplace'
+        ok = ws == ['_planData.planExists'] and len(link) == 1 and ir.strip(ir.expand(link[0].e['args'][0], E.decls(fn))).get('m') == 'emplace'
         run.ob('C10.a', 'PayloadPlanT::append writes only the planExists flag itself and links what emplace returns (emplace has the capacity test)', ok,
                where=fn.pat, detail=ws, key='PayloadPlanT::append writes plan storage without a capacity test')
     for fn in F.find('PlanT', 'linkTask'):
